@@ -56,6 +56,16 @@ def stale_state_obligation(cfg):
             require_same(Jb[k], seen[k], "%s: after a caller modified the arrays returned by calc_jacobians(), the next call returns "
                                          "different Jacobians (shared storage is handed out)" % cfg_name(cfg))
         scribble(Jb)
+        # the derivative of the error does not depend on optimizer bookkeeping: marking the vertices fixed (as optimize() does
+        # for the first vertex, permanently) must not change the Jacobians an edge reports
+        from ..interp import ga, sa
+        for v_ in ga(e, "vertices"):
+            sa(v_, "fixed", True)
+        Jf = it.call_method(e, "calc_jacobians", [])
+        for k in (0, 1):
+            require_same(Jf[k], seen[k], "%s: with its vertices marked fixed the edge reports a different Jacobian w.r.t. vertex %d" % (cfg_name(cfg), k))
+        for v_ in ga(e, "vertices"):
+            sa(v_, "fixed", False)
         q1, q2, zz, oo = sym_config(cfg, unit=True, names=("q1", "q2", "zz", "oo"))
         for old, new in ((p1, q1), (p2, q2), (z, zz), (off, oo)):
             if old is not None:
